@@ -341,6 +341,45 @@ func c12Rewrites(n int) []c12Rewrite {
 			return f, dec
 		}})
 	}
+	// long lists: k unknown extension directives in front of (and, for one size, behind) everything else
+	for _, k := range []int{15, 16, 17, 40} {
+		k := k
+		rs = append(rs, c12Rewrite{"many", fmt.Sprintf("%d extension directives in front", k), func(f c12Form, dec int) (c12Form, int) {
+			g := f.clone()
+			var ext []string
+			for i := 0; i < k; i++ {
+				ext = append(ext, fmt.Sprintf("x%d", i+1))
+			}
+			g.dirs = append(ext, g.dirs...)
+			for i := range g.splits {
+				g.splits[i] += k
+			}
+			return g, dec + k
+		}})
+	}
+	rs = append(rs, c12Rewrite{"many", "a repeated extension directive in front", func(f c12Form, dec int) (c12Form, int) {
+		g := f.clone()
+		g.dirs = append([]string{"x-rep", "x-rep=1", "x-rep"}, g.dirs...)
+		for i := range g.splits {
+			g.splits[i] += 3
+		}
+		return g, dec + 3
+	}})
+	// delta-seconds is 1*DIGIT: leading zeros are legal and change nothing
+	for _, pad := range []int{1, 9, 10, 11, 24} {
+		pad := pad
+		rs = append(rs, c12Rewrite{"zeros", fmt.Sprintf("numeric arguments padded with %d leading zero(s)", pad), func(f c12Form, dec int) (c12Form, int) {
+			g := f.clone()
+			for i, d := range g.dirs {
+				name, arg, has := strings.Cut(d, "=")
+				if !has || arg == "" || strings.Trim(arg, "0123456789") != "" {
+					continue
+				}
+				g.dirs[i] = name + "=" + strings.Repeat("0", pad) + arg
+			}
+			return g, dec
+		}})
+	}
 	for _, p := range permutations(n)[1:] {
 		p := p
 		rs = append(rs, c12Rewrite{"perm", fmt.Sprintf("order %v", p), func(f c12Form, dec int) (c12Form, int) {
